@@ -39,6 +39,8 @@ pub struct SemOpts {
     /// favour the shapes whose facts arrive late during propagation: loop-carried updates
     /// `x = x op e`, helper calls (no degree of their own) and array element chains (C20)
     pub late_facts: bool,
+    /// signals may be assigned inside branches and loops (a constant stored on one path only)
+    pub nested_signal_assign: bool,
 }
 
 pub fn gen_sem_case(t: &mut Tape, o: SemOpts) -> SemCase {
@@ -92,6 +94,9 @@ pub fn gen_sem_case(t: &mut Tape, o: SemOpts) -> SemCase {
         p.self_update_bias = 110;
         p.call_bias = 40;
         p.max_stmts = 6 + t.below(14);
+    }
+    if o.nested_signal_assign {
+        p.nested_signal_assign = true;
     }
     if o.c09_domain {
         p.no_intermediate = true;
